@@ -121,6 +121,10 @@ def gen_run(rng, cfg):
             elif opk == "parse_file":
                 op["use_cpp"] = rng.random() < 0.4
                 if rng.random() < 0.5:
+                    op["encoding"] = rng.choice(["utf-8", "latin-1"])
+                if rng.random() < 0.5:
+                    op["filename"] = "d%d/unit.c" % i  # the same base name in every actor's own directory
+                if rng.random() < 0.5:
                     op["default_parser"] = True  # parse_file(filename) without parser=
                 if faulty and rng.random() < 0.25:
                     k = rng.choice(["cpp-missing", "cpp-fails", "short-read"] if op["use_cpp"] else ["open-error", "decode-error", "short-read"])
